@@ -12,6 +12,7 @@
 //   real resolve  <tcp|udp> <timeoutMs> <wrapped>
 //   real udp      <ok|tls> <timeoutMs>
 //   real ioguard
+//   real stale    <connectTimeoutMs>            (seed C04-e: the engine's connect-timeout timer loses its race against completion)
 //   real many     <nCallers> <timeoutMs>      (even callers -> accepting target, odd callers -> black hole; all at once)
 #include <algorithm>
 #include <any>
@@ -663,6 +664,93 @@ std::string scenMany(long long n, long long timeoutMs)
   return out;
 }
 
+// seed C04-e: the engine's own connect-timeout timer (TransportConfig::connectTimeout = T, TimerService thread) fires while the
+// connect has ALREADY completed in the kernel but the I/O thread - parked in a gated data callback of another session - has not
+// looked at EPOLLOUT yet.  Released, it completes the connect (connectSync returns ok(sid)) and then meets the stale Close in
+// process().  The target is a backlog-0 listener whose single accept slot is freed after the first SYN was dropped, so the
+// connection is established by the SYN retransmitted after ~1 s (T must be > 1 s).
+std::string scenStale(long long T)
+{
+  Obs o;
+  Gate gate;
+  Listener trig, hole;
+  if (!trig.open(8) || !hole.open(0)) return "real stale skip=listen-failed";
+  int filler = ::socket(AF_INET, SOCK_STREAM | SOCK_NONBLOCK, 0);
+  ::connect(filler, reinterpret_cast<sockaddr*>(&hole.sa), sizeof(hole.sa));     // fills the accept queue: further SYNs are dropped
+  std::this_thread::sleep_for(60ms);
+  TransportConfig cfg;
+  cfg.connectTimeout = std::chrono::milliseconds(T);
+  cfg.enableHighResolutionTimers = true;
+  auto t = Transport::tcp(cfg);
+  t->onConnect([&o](SessionId sid, const TransportAddress&) { std::lock_guard<std::mutex> lk(o.m); o.gconnect.push_back(sid); });
+  t->onClose([&o](SessionId sid, const TransportErrorInfo& e) { std::lock_guard<std::mutex> lk(o.m); o.gclose.push_back({sid, e.code}); });
+  Gate* g = &gate;
+  t->onData([&o, g](SessionId sid, iora::core::BufferView, std::chrono::steady_clock::time_point) {
+    {
+      std::lock_guard<std::mutex> lk(o.m);
+      o.gdata.push_back(sid);
+    }
+    if (sid == g->sid)
+    {
+      std::unique_lock<std::mutex> lk(g->m);
+      if (g->release) return;
+      g->entered = true;
+      g->cv.notify_all();
+      g->cv.wait(lk, [g] { return g->release; });
+    }
+  });
+  if (!t->start().isOk()) { ::close(filler); return "real stale skip=start-failed"; }
+  auto r1 = t->connectSync("127.0.0.1", trig.port, TlsMode::None, 3000ms);
+  int a1 = r1.isOk() ? acceptWithin(trig.fd, 3000) : -1;
+  if (!r1.isOk() || a1 < 0) { t->stop(); ::close(filler); return "real stale skip=setup-failed"; }
+  {
+    std::lock_guard<std::mutex> lk(o.m);
+    o.held.insert(r1.value());
+  }
+  gate.sid = r1.value();
+  long long t0 = nowMs();
+  // the attempt under test: its first SYN is dropped, the engine arms the connect timer (T)
+  std::thread caller([&] { doConnect(*t, o, "127.0.0.1", hole.port, false, false, T + 4000); });
+  std::this_thread::sleep_for(150ms);
+  int freed = ::accept(hole.fd, nullptr, nullptr);          // room for the SYN retransmitted at ~1 s
+  (void)!::write(a1, "x", 1);                               // park the I/O thread
+  bool parked;
+  {
+    std::unique_lock<std::mutex> lk(gate.m);
+    parked = gate.cv.wait_for(lk, 800ms, [&] { return gate.entered; });
+  }
+  long long wake = t0 + T + 350;                            // the timer has fired and enqueued its Close
+  while (nowMs() < wake) std::this_thread::sleep_for(10ms);
+  // did the connection complete in the kernel meanwhile? (the target's accept queue holds it)
+  pollfd pq{hole.fd, POLLIN, 0};
+  bool kernelConnected = ::poll(&pq, 1, 0) > 0;
+  {
+    std::lock_guard<std::mutex> lk(gate.m);
+    gate.release = true;
+  }
+  gate.cv.notify_all();
+  caller.join();
+  int acc = acceptWithin(hole.fd, 300);
+  std::this_thread::sleep_for(600ms);                       // a stale Close, if executed, reports through the global close callback now
+  std::size_t want = 1;
+  {
+    std::lock_guard<std::mutex> lk(o.m);
+    want = o.held.size();
+  }
+  o.add("parked", parked ? 1 : 0);
+  o.add("kernel_connected_before_release", kernelConnected ? 1 : 0);
+  o.add("T", T);
+  o.add("want_sessions", static_cast<long long>(want));
+  // nobody but the transport could have closed the session: the peer keeps `acc` open, the application never calls close()
+  std::string out = finish("stale", o, t.get());
+  t->stop();
+  if (acc >= 0) ::close(acc);
+  if (freed >= 0) ::close(freed);
+  ::close(filler);
+  ::close(a1);
+  return out;
+}
+
 bool parseInt(const std::string& s, long long& out)
 {
   if (s.empty()) return false;
@@ -686,6 +774,7 @@ std::string stepOp(const std::vector<std::string>& t)
   if (t[1] == "resolve" && t.size() == 5 && parseInt(t[3], a) && parseInt(t[4], b)) return scenResolve(t[2] == "udp", a, b == 1);
   if (t[1] == "udp" && t.size() == 4 && parseInt(t[3], a)) return scenUdp(t[2], a);
   if (t[1] == "ioguard" && t.size() == 2) return scenIoGuard();
+  if (t[1] == "stale" && t.size() == 3 && parseInt(t[2], a) && a >= 1100 && a <= 5000) return scenStale(a);
   if (t[1] == "many" && t.size() == 4 && parseInt(t[2], a) && parseInt(t[3], b) && a >= 1 && a <= 32) return scenMany(a, b);
   return "bad-op";
 }
